@@ -194,6 +194,14 @@ def run(model: Model, rep: Report) -> None:
     v = [unparse(n.value) for n in walk_no_nested(ir.node) if isinstance(n, (ast.Assign, ast.AnnAssign)) and unparse(n.targets[0] if isinstance(n, ast.Assign) else n.target) == "self.csmap"]
     r8 = rep.rule("C16-R8", "ALIAS", "the colour-space table consulted by cs/CS/sc/scn is a per-interpreter copy of the predefined table", 1)
     r8.check(len(v) == 1 and v[0] in ("PREDEFINED_COLORSPACE.copy()", "dict(PREDEFINED_COLORSPACE)", "{**PREDEFINED_COLORSPACE}"), site(ir), ir.qualname, "self.csmap = PREDEFINED_COLORSPACE.copy()", why=f"self.csmap = {v}: names bound by one page's or form's /ColorSpace resources are written into the shared table, so a later `cs` with that name sees another stream's colour space (and component count)")
+    # q / Q: every q pushes, every Q pops when there is something to pop
+    r9 = rep.rule("C16-R9", "PAIR", "q saves the graphics state on every path; Q restores the most recent one whenever the stack is not empty", 2)
+    dq, dQ = model.func("pdfminer.pdfinterp.PDFPageInterpreter.do_q"), model.func("pdfminer.pdfinterp.PDFPageInterpreter.do_Q")
+    gq = build_cfg(dq.node, exc_edges=False)
+    wq = gq.all_path_pass(gq.entry, lambda n: n.ast is not None and n.kind == "stmt" and "".join(unparse(n.ast).split()) == "self.gstack.append(self.get_current_state())")
+    r9.check(wq is None and not any(isinstance(n, (ast.If, ast.Return)) for n in walk_no_nested(dq.node)), site(dq), dq.qualname, "do_q: self.gstack.append(self.get_current_state()), unconditionally", why="a path through do_q does not push: the matching Q then restores an outer level's line width, dash, colours and CTM")
+    sQ = "".join(unparse(dQ.node).split())
+    r9.check("ifself.gstack:self.set_current_state(self.gstack.pop())" in sQ and len([n for n in walk_no_nested(dQ.node) if isinstance(n, ast.If)]) == 1, site(dQ), dQ.qualname, "do_Q: pops and restores iff the stack is non-empty", why="changed")
     from .interp import optional_number_truth_rule
 
     optional_number_truth_rule(model, rep, "C16-R7", [f for q, f in sorted(model.funcs.items()) if q.startswith("pdfminer.pdfinterp.PDFPageInterpreter.do_")], 8)
